@@ -212,12 +212,11 @@ def compare(chk, v, tname, W, R, where, vn):
     # a reader that reads blocks into a private staging buffer (an allocation that is not part of the object it builds) and distributes
     # them afterwards: the comparison of transfers does not see where the bytes end up.  Not modelled (the writer-side counterpart
     # is): undecided, never a violation.
+    staged_read = None
     for o in flat_ops(R["ops"]):
         sr_ = ioseq._staging_root(o["ptr"]) if o["op"] == "bin" and o.get("dir") == "r" else None
         if sr_ is not None and sr_[0] not in canon:
-            from sa.pipeline import AnalysisBroken
-            raise AnalysisBroken("%s: the reader reads into a private staging buffer at line %s and distributes the bytes afterwards; "
-                                 "staged reads are not modelled" % (tname, o["l"]))
+            staged_read = o
     rsecs = [o for o in flat_ops(R["ops"]) if o["op"] == "text"]
     secidx = {o["id"]: i for i, o in enumerate(rsecs)}
 
@@ -297,7 +296,7 @@ def compare(chk, v, tname, W, R, where, vn):
     class _NoExpansion(Exception):
         pass
 
-    def expand_compare(ws, rs, loopmap, ctx):
+    def expand_compare(ws, rs, loopmap, ctx, totals_only=False):
         from sa.secretflow import eval_term
         wvars, rvars = set(), set()
 
@@ -408,6 +407,26 @@ def compare(chk, v, tname, W, R, where, vn):
                 import os
                 if os.environ.get("VERIF_DEBUG"): print("NOEXP", ctx, e_)
                 return None
+            if totals_only:
+                # staged reads: where the bytes end up is not modelled, but how many are requested is
+                def total(tr_, tf):
+                    n_ = 0
+                    for o_, e_, _ops, _i in tr_:
+                        if o_["op"] != "bin":
+                            continue
+                        sz = eval_term(inst(tf(o_["size"]), e_), asg)
+                        if sz is None:
+                            raise _NoExpansion("size")
+                        n_ += sz
+                    return n_
+                try:
+                    bw, br = total(tw, wt), total(trr, rt)
+                except _NoExpansion:
+                    return None
+                if bw != br:
+                    dimtxt = ", ".join("%s=%d" % (sym.show(d)[:30], asg[d]) for d in dims[:6])
+                    return ["%s: with %s the writer produces %d bytes of binary data and the reader requests %d" % (ctx, dimtxt, bw, br)]
+                continue
             dimtxt = ", ".join("%s=%d" % (sym.show(d)[:30], asg[d]) for d in dims[:6])
             if len(tw) != len(trr):
                 k_ = min(len(tw), len(trr))
@@ -534,6 +553,16 @@ def compare(chk, v, tname, W, R, where, vn):
             else:
                 problems.append("%s: unrecognised op %s" % (c, w["op"]))
 
+    if staged_read is not None:
+        # a reader that reads blocks into a private staging buffer (an allocation that is not part of the object it builds) and
+        # distributes them afterwards: where the bytes end up is not modelled (the writer-side counterpart is).  What is decided is the
+        # number of bytes requested against the number written, on small dimensions; beyond that the pair is undecided, never a violation.
+        res = expand_compare(W["ops"], R["ops"], {}, tname, totals_only=True)
+        if isinstance(res, list):
+            return res, 1
+        from sa.pipeline import AnalysisBroken
+        raise AnalysisBroken("%s: the reader reads into a private staging buffer at line %s and distributes the bytes afterwards; the byte "
+                             "counts agree, the distribution of staged reads is not modelled" % (tname, staged_read["l"]))
     cmp_seq(W["ops"], R["ops"], {}, tname)
     return problems, nontriv[0]
 
